@@ -78,6 +78,12 @@ def run_shard(pid, shard_id, wd, kernels, opts, known, extra_includes, depth=0):
                 name=kernels[0].name, view="-", status="not-instantiable", reason=sb.log[0][-1500:] if sb.log else "",
                 desc=kernels[0].desc, tags=kernels[0].tags, obligations=[], violations=[], known=[])],
                 "t": time.time() - t0, "build_s": tb}
+        # canary: does the prelude alone still compile?  if not, nothing is instantiable (no bisection)
+        if depth == 0:
+            cb = check.ShardBuild(wd, tag + "canary", [], extra_includes)
+            if not cb.build(runners=False):
+                return {"shard": shard_id, "fatal": "prelude does not compile against the current tree:\n" + "\n".join(cb.log)[-3000:],
+                        "results": [], "t": time.time() - t0, "build_s": tb}
         # bisect to isolate the kernels the current tree refuses to instantiate
         h = len(kernels) // 2
         a = run_shard(pid, "%sa" % shard_id, wd, kernels[:h], opts, known, extra_includes, depth + 1)
